@@ -279,7 +279,12 @@ func (r *AofRotateReader) read(buf []byte) (n int, err error) {
 	for err == io.EOF && !r.wait.IsClosed() {
 		// new aof?
 		if r.left != r.aof.lastSeg() {
-			r.tryReadNextFile(r.right)
+			if nerr := r.tryReadNextFile(r.right); nerr != nil && r.file == nil {
+				// the next segment exists but cannot be opened (it failed verification :
+				// ErrCorrupted) and the previous one is closed : report that error
+				// instead of the "invalid argument" of a read on the closed file
+				return 0, nerr
+			}
 		}
 		time.Sleep(time.Millisecond * 10)
 		n, err = r.file.Read(buf)
